@@ -81,6 +81,17 @@ func Apply(dir, diffFile string) (map[string][]byte, error) {
 		abs := filepath.Join(dir, fp.path)
 		src, err := os.ReadFile(abs)
 		if err != nil {
+			if os.IsNotExist(err) && len(fp.hunks) == 1 && fp.hunks[0].oldStart == 0 {
+				// a file the patch adds: every line of its one hunk is an addition
+				var res []string
+				for _, l := range fp.hunks[0].lines {
+					if len(l) > 0 && l[0] == '+' {
+						res = append(res, l[1:])
+					}
+				}
+				overlay[abs] = []byte(strings.Join(res, "\n") + "\n")
+				continue
+			}
 			return nil, fmt.Errorf("%s: %v", fp.path, err)
 		}
 		lines := strings.Split(string(src), "\n")
